@@ -584,7 +584,10 @@ class SO3(SMPose):
         if base.ismatrix(S, (-1, 3)) and not so3:
             return cls([base.trexp(s, check=check) for s in S], check=False)
         else:
-            return cls(base.trexp(S, check=check), check=False)
+            R = base.trexp(S, check=check)
+            if R.shape != (3, 3):
+                raise ValueError('argument must be an element of so(3)')
+            return cls(R, check=False)
 
 # ============================== SE3 =====================================#
 
